@@ -158,8 +158,38 @@ func init() {
 		fr.i.ex.schedND = args[0].(bool)
 		return nil
 	}
+	// Yield: a scheduling point between harness threads started with verifrt.Go. The decision
+	// "hand over to the other thread?" is a named symbolic choice (c_sched_<k>), so that a
+	// counterexample carries its schedule and the native twin can force it.
 	rt["Yield"] = func(fr *frame, args []value) value {
-		fr.i.switchFrom(fr.i.cur, false)
+		fr.i.schedPoint(false)
+		return nil
+	}
+	// PreemptAtLocks(n): from now on every mutex acquisition is a scheduling point as well; at
+	// most n pre-emptions are taken on one path (context bound).
+	rt["PreemptAtLocks"] = func(fr *frame, args []value) value {
+		fr.i.preemptLocks = true
+		fr.i.preemptLeft = int(asInt64(args[0]))
+		return nil
+	}
+	// Rounds(n): how many times a free-running native stress repeats the scenario; once here.
+	rt["Rounds"] = func(fr *frame, args []value) value { return int(1) }
+	// Go(f): start f as a harness thread (runs when the scheduler hands it the baton).
+	rt["Go"] = func(fr *frame, args []value) value {
+		i := fr.i
+		f := args[0]
+		t := i.spawn(func() {
+			call(i, nil, token.NoPos, f, nil)
+		})
+		t.harness = true
+		i.deadlockIsEvent = true
+		return nil
+	}
+	// Join: wait until every thread started with Go has finished.
+	rt["Join"] = func(fr *frame, args []value) value {
+		i := fr.i
+		me := i.cur
+		i.blockUntil(func() bool { return len(i.liveOthers(me)) == 0 || i.allOthersParked(me) }, "Join")
 		return nil
 	}
 	rt["MapOrderND"] = func(fr *frame, args []value) value {
